@@ -842,6 +842,18 @@ class Interp:
             self.store_name(t.id, v, fr)
         elif isinstance(t, ast.Attribute):
             self.setattr(self.eval(t.value, fr), t.attr, v)
+        elif isinstance(t, (ast.Tuple, ast.List)) and any(isinstance(e, ast.Starred) for e in t.elts):
+            # a, *rest, z = concrete sequence   (C17: `obj_arg_name, *_ = _get_fn_argnames(wrapped)`)
+            (si,) = [i for i, e in enumerate(t.elts) if isinstance(e, ast.Starred)]
+            items = list(self.concrete_iter(v))
+            after = len(t.elts) - si - 1
+            if len(items) < len(t.elts) - 1:
+                self.raise_py(ValueError, f"not enough values to unpack (expected at least {len(t.elts) - 1}, got {len(items)})")
+            for e, x in zip(t.elts[:si], items[:si]):
+                self.assign(e, x, fr)
+            self.assign(t.elts[si].value, ListObj(items[si:len(items) - after]), fr)
+            for e, x in zip(t.elts[si + 1:], items[len(items) - after:] if after else []):
+                self.assign(e, x, fr)
         elif isinstance(t, (ast.Tuple, ast.List)):
             vals = self.unpack(v, len(t.elts))
             for e, x in zip(t.elts, vals):
@@ -1305,6 +1317,11 @@ class Interp:
         clo.defaults = [self.eval(d, fr) for d in e.args.defaults]
         clo._kw_default_values = {}
         return clo
+
+    def e_NamedExpr(self, e, fr):
+        v = self.eval(e.value, fr)
+        self.assign(e.target, v, fr)
+        return v
 
     def e_IfExp(self, e, fr):
         if self.truth(self.eval(e.test, fr), f"ifexp@{fr.func.__name__}:{e.lineno}"):
